@@ -24,8 +24,6 @@ depends on scheduling. Stores in option setters and reviewed debug counters are 
 }
 
 var pvExceptions = map[string]string{
-	"pkg/obiiter.RegisterAPipe:globalLockerCounter":   "debug counter, only logged; the pipe accounting itself is the WaitGroup",
-	"pkg/obiiter.UnregisterPipe:globalLockerCounter": "debug counter, only logged; the pipe accounting itself is the WaitGroup",
 }
 
 func runPV(c *Ctx, s *Sink) {
